@@ -492,15 +492,19 @@ def _messages_cannot_fail(chk: Check) -> None:
             continue
         al = local_aliases(f.node)
 
-        def literal(e: ast.AST, depth: int = 0) -> bool:
+        def literal(e: ast.AST, depth: int = 0) -> Optional[bool]:
+            """True a literal, False computed from other values, None a name whose value is not
+            known here (a constant of another module, a class attribute)"""
             if isinstance(e, ast.Constant) and isinstance(e.value, str):
                 return True
             if isinstance(e, ast.Name) and e.id in al and depth < 4:
                 return literal(al[e.id], depth + 1)
             if isinstance(e, ast.BinOp) and isinstance(e.op, ast.Add):
-                return literal(e.left, depth + 1) and literal(e.right, depth + 1)
-            if isinstance(e, ast.JoinedStr):
-                return False
+                a_, b_ = literal(e.left, depth + 1), literal(e.right, depth + 1)
+                return False if a_ is False or b_ is False else None if a_ is None or b_ is None else True
+            if isinstance(e, (ast.Name, ast.Attribute)) and not (
+                    isinstance(e, ast.Name) and e.id in f.param_names()):
+                return None
             return False
         for r in walk_no_nested(f.node):
             if not isinstance(r, ast.Raise) or r.exc is None:
@@ -513,14 +517,17 @@ def _messages_cannot_fail(chk: Check) -> None:
             for root in roots:
                 for x in ast.walk(root):
                     bad = None
+                    unknown = False
                     if isinstance(x, ast.BinOp) and isinstance(x.op, ast.Mod):
                         n += 1
-                        if not literal(x.left):
-                            bad = x
+                        lv = literal(x.left)
+                        if lv is not True:
+                            bad, unknown = x, lv is None
                     elif isinstance(x, ast.Call) and isinstance(x.func, ast.Attribute) and x.func.attr == "format":
                         n += 1
-                        if not literal(x.func.value):
-                            bad = x
+                        lv = literal(x.func.value)
+                        if lv is not True:
+                            bad, unknown = x, lv is None
                     if bad is not None or isinstance(x, (ast.BinOp, ast.Call)) and (
                             isinstance(x, ast.BinOp) and isinstance(x.op, ast.Mod) or
                             isinstance(x, ast.Call) and isinstance(x.func, ast.Attribute) and x.func.attr == "format"):
@@ -528,5 +535,6 @@ def _messages_cannot_fail(chk: Check) -> None:
                                "%s builds an error message with a format string that is not a literal (%s): data "
                                "of the file containing a format directive makes the formatting itself fail, and "
                                "the caller gets TypeError / ValueError / KeyError instead of the rejection"
-                               % (f.qualname, unparse(x.left if isinstance(x, ast.BinOp) else x.func.value)[:60]), 2)
+                               % (f.qualname, unparse(x.left if isinstance(x, ast.BinOp) else x.func.value)[:60]), 2,
+                               undecided=unknown)
     chk.extra["formatted_messages_in_readers"] = n
